@@ -19,7 +19,7 @@ PROP = dict(
     level_note=("Trusted: Coq kernel+VM; differential tie on sampled histories; the service never serves the empty name; cache writes succeed "
                 "(write failures are C13's); |LastAccess| far from the int64 range; the narrow race of two concurrent lookups of one name is modelled "
                 "(as a re-install) but not exercised."),
-    rule=("random histories of 6-24 steps (construction from a crafted cache document, Secret, handle reads, LookupSecret, NewUpdater, Refresh "
+    rule=("random histories of 6-24 steps (construction from a crafted cache document, Secret, handle reads, LookupSecret, NewUpdater, ParseFields+Fields.Apply on the live store, Refresh "
           "- a third of them held in mid-flight with 1-3 calls in between -, clock advances incl. exactly age, clean/abrupt restarts with new declared "
           "sets and ages); one case = one history; non-trivial if some name was dropped; distinct by input"),
     explain=("the real Store's observable behaviour (poll request set, a document handed to the cache, a call result) differs at some step from the "
